@@ -55,6 +55,8 @@ class Contract:
         self.pure = False
         self.native = {}
         self.refines = []
+        self.ghost_init = {}        # ghost variables (specification-only state) and their initial values
+        self.ghost_updates = []     # (statement text, [(ghost, expr)]) executed just before that statement
         self.nofacts = set()        # side facts of these spec functions are NOT assumed (used to prove the facts themselves)
         self.forget = set()         # callee postconditions mentioning these spec functions are not assumed (coarser, faster)
         self.local_types = {}       # declared types of local containers the engine cannot track (lists built in loops)
@@ -402,6 +404,9 @@ class Registry:
                 elif n == 'native':
                     for k in call.keywords:
                         c.native[k.arg] = k.value
+                elif n == 'ghost_init':
+                    for k in call.keywords:
+                        c.ghost_init[k.arg] = k.value
                 elif n == 'nofacts':
                     for x in call.args:
                         c.nofacts.add(ast.literal_eval(x))
@@ -422,13 +427,18 @@ class Registry:
                     text = ast.literal_eval(call.args[0])
                     uses = []
                     checks = []
+                    sets = []
                     for kw in call.keywords:
                         if kw.arg == 'use':
                             uses = kw.value.elts if isinstance(kw.value, (ast.List, ast.Tuple)) else [kw.value]
                         elif kw.arg == 'check':
                             checks = kw.value.elts if isinstance(kw.value, (ast.List, ast.Tuple)) else [kw.value]
-                    c.stmt_hints.append((text if text.startswith('@') else ast.unparse(ast.parse(text).body[0]),
-                                         uses, checks))
+                        elif kw.arg == 'set' and isinstance(kw.value, ast.Call):
+                            sets = [(k2.arg, k2.value) for k2 in kw.value.keywords]      # set=dict(ghost=expr)
+                    key_ = text if text.startswith('@') else ast.unparse(ast.parse(text).body[0])
+                    c.stmt_hints.append((key_, uses, checks))
+                    if sets:
+                        c.ghost_updates.append((key_, sets))
                 elif n == 'loop':
                     k = ast.literal_eval(call.args[0])
                     ls = c.loops.setdefault(k, LoopSpec())
